@@ -12,6 +12,9 @@ Local Infix "+++" := append (at level 60, right associativity).
 
 Definition is_tok (ty : Z) (s : string) (t : token) : bool := (ttyp t =? ty) && String.eqb (tstr t) s.
 
+(* tokens that carry the line / block structure *)
+Definition is_layout (t : token) : bool := z_in [T_NEWLINE; T_INDENT; T_DEDENT; T_ENDMARKER] (ttyp t).
+
 (* ---------- ForParser *)
 Record fp := mk_fp { fp_state : Z; fp_for : option pos; fp_ann : option (list token);
                      fp_anns : list (option pos * list token) }.
@@ -29,6 +32,8 @@ Definition for_consume (st : fp) (t : token) : pres (fp * bool) :=
     POk (mk_fp S_NOT_RUNNING (fp_for st) None
                (dset opos_eqb (fp_anns st) (fp_for st) (opt_or_nil (fp_ann st))), false)
   else if negb (fp_state st =? S_RUNNING) then POk (st, false)
+  else if is_layout t then
+    PErr (User "SyntaxException" (fst (tstart t)) (snd (tstart t)) "invalid for loop syntax: missing `in`")
   else match fp_ann st with
        | Some a => POk (mk_fp (fp_state st) (fp_for st) (Some (a ++ [t])) (fp_anns st), true)
        | None => PErr (Internal TypeErr)          (* None.append *)
